@@ -23,10 +23,17 @@ func checkC13(r *Report, p *Program) {
 	r13_3(r, p)
 	r13_4(r, p)
 	rmwResultSet(r, p, "R13.5")
+	failedResultNotUsed(r, p, "R13.7")
 	// shouldContinueRolling hands latest.desiredChildMap[name] to ApplyUpdate unchecked: what makes that
 	// non-nil is that syncRevisionClaims keeps, for EVERY revision incl. the latest, only names the latest desires
 	r09_5(r, p)
 	r13_6(r, p)
+	// unchecked type assertions in the merge are reachable only behind the list-map detection over all three lists (shared with C05)
+	r05_3(r, p)
+	// a body the strict decoder rejects is rejected however it arrives (shared with C19)
+	r19_3(r, p)
+	// the per-revision overlay hands ReplaceObjectIfExists a child only behind its nil test (shared with C07)
+	r07_5(r, p)
 }
 
 // r13_6: a decoded customize response is cached only after its entries were validated.
